@@ -487,38 +487,71 @@ def r3_kernel_helpers(ctx):
               "Convolution::rotate does not (only) rotate each channel by 180 degrees: %s. The input gradient of a convolution is the full "
               "correlation of delta with the per-channel rotated kernels; reversing anything else (e.g. the channel order) routes gradient "
               "to the wrong input channel" % why)
-    # rearrange
+    # rearrange: out[c][f][h][w] = kernels[f][c][h][w] for all indices; index loops, enumerate-driven loops or a mix
     fn2 = ctx.fn("convolution::Convolution::rearrange")
     kp = pat_binds(fn2["params"][1])[0]
+    from ..hir import let_table, cpretty, resolve
+    TT2 = let_table(fn2["body"])
     asg = [x for x in walk(fn2["body"]) if x.get("k") == "assign"]
     ok2 = False
     got = "?"
     if len(asg) == 1:
-        # loop variables by the extent they range over
-        role = {}
+        nm = kp[0]
+        ext_of = {"%s.len()" % nm: "F", "%s[0].len()" % nm: "C", "%s[0][0].len()" % nm: "H", "%s[0][0][0].len()" % nm: "W"}
+        counter_of = {}      # hid of an enumerate counter -> (hid of the element binding, node of the enumerated collection)
+        elem_src = {}        # hid of an element binding -> (counter hid, collection node)
+        range_role = {}      # hid of a range loop variable -> extent name
         for lp in [x for x in walk(fn2["body"]) if x.get("k") == "for"]:
             it = strip(lp["iter"])
             if it.get("k") == "struct" and it["path"] == "std::ops::Range":
                 fs = dict((a, b) for a, b in it["fs"])
-                from ..hir import let_table, cpretty
-                end = cpretty(fs["end"], let_table(fn2["body"]))
-                nm = kp[0]
-                ext = {"%s.len()" % nm: "F", "%s[0].len()" % nm: "C", "%s[0][0].len()" % nm: "H", "%s[0][0][0].len()" % nm: "W"}.get(end)
+                ext = ext_of.get(cpretty(fs["end"], TT2))
                 if ext and e4.lit_value(fs["start"]) == "0" and pat_binds(lp["pat"]):
-                    role[pat_binds(lp["pat"])[0][1]] = ext
+                    range_role[pat_binds(lp["pat"])[0][1]] = ext
+            elif it.get("k") == "mcall" and it["name"] == "enumerate":
+                src = strip(it["recv"])
+                while src is not None and src.get("k") == "mcall" and src["name"] in ("iter_mut", "iter"):
+                    src = strip(src["recv"])
+                pb = pat_binds(lp["pat"])
+                if len(pb) == 2 and src is not None:
+                    counter_of[pb[0][1]] = (pb[1][1], src)
+                    elem_src[pb[1][1]] = (pb[0][1], src)
 
-        def idx_roles(n):
+        def tokens(n):
+            """index variables of an element access, outermost first, following enumerate element bindings to their collection"""
             out = []
             n = strip(n)
-            while n is not None and n.get("k") == "index":
-                out.append(role.get(e4.local_hid(n["i"]), "?"))
-                n = strip(n["b"])
+            while n is not None:
+                if n.get("k") == "index":
+                    out.append(e4.local_hid(n["i"]))
+                    n = strip(n["b"])
+                elif n.get("k") == "local" and n["hid"] in elem_src:
+                    cnt, src = elem_src[n["hid"]]
+                    out.append(cnt)
+                    n = strip(src)
+                else:
+                    break
             return list(reversed(out)), n
-        lr, lb = idx_roles(asg[0]["l"])
-        rr, rb = idx_roles(asg[0]["r"])
-        got = "%s <- %s" % ("".join(lr), "".join(rr))
-        ok2 = lr == ["C", "F", "H", "W"] and rr == ["F", "C", "H", "W"] and e4.local_hid(rb) == kp[1] and sorted(role.values()) == ["C", "F", "H", "W"]
-    ctx.check("R01.3", "rearrange:swaps-filter-and-channel-axes", ok2, "rearrange-form:" + got, c.loc(fn2), "out[c][f][h][w] = kernels[f][c][h][w] over all f, c, h, w")
+        lt, lb = tokens(asg[0]["l"])
+        rt, rb = tokens(asg[0]["r"])
+        # the target is a fresh 4-D buffer allocated as C x F x H x W
+        alloc_ok = False
+        if lb is not None and lb.get("k") == "local" and lb["hid"] in TT2 or (lb is not None and lb.get("k") == "local"):
+            for s_ in walk(fn2["body"]):
+                if s_.get("k") == "let" and s_["pat"].get("k") == "bind" and lb is not None and s_["pat"]["hid"] == lb.get("hid") and s_.get("init") is not None:
+                    dims = []
+                    cur = strip(s_["init"])
+                    while cur is not None and cur.get("k") == "call" and cur["callee"].endswith("vec::from_elem"):
+                        dims.append(ext_of.get(cpretty(cur["args"][1], TT2)))
+                        cur = strip(cur["args"][0])
+                    alloc_ok = dims == ["C", "F", "H", "W"]
+        roles_l = [range_role.get(h) for h in lt]
+        got = "%s <- %s" % (lt, rt)
+        ok2 = (len(lt) == 4 and len(rt) == 4 and None not in lt and len(set(lt)) == 4 and rt == [lt[1], lt[0], lt[2], lt[3]] and e4.local_hid(rb) == kp[1] and alloc_ok
+               and all(r is None or r == want for r, want in zip(roles_l, ["C", "F", "H", "W"]))
+               and all((h in range_role) or (h in counter_of) for h in lt))
+        got = "target indices %s (extents %s), source indices %s, buffer %s" % (lt, roles_l, rt, "CxFxHxW" if alloc_ok else "?")
+    ctx.check("R01.3", "rearrange:swaps-filter-and-channel-axes", ok2, "rearrange-form:" + short(got, 90), c.loc(fn2), "out[c][f][h][w] = kernels[f][c][h][w] over all f, c, h, w")
     # both are used (once each) by backward
     bf = ctx.fn("convolution::Convolution::backward")
     used = sorted(cal.rsplit("::", 1)[-1] for _, cal in calls(bf["body"]) if cal in ("convolution::Convolution::rotate", "convolution::Convolution::rearrange"))
